@@ -33,16 +33,26 @@ func Range(start, end, step int) SortedInts {
 		return []int{}
 	}
 
+	//Work with the distance and the size of the step as unsigned values so that nothing overflows, even at the ends of the range of int.
+	var dist, size uint64
+	if end > start {
+		dist = uint64(end) - uint64(start)
+		size = uint64(step)
+	} else {
+		dist = uint64(start) - uint64(end)
+		size = -uint64(step)
+	}
+	//The elements are start, start+step, ..., start+(count-1)*step.
+	count := (dist-1)/size + 1
+	first := uint64(start)
 	if end < start {
-		//The elements are start, start+step, ... while they are greater than end. Find the smallest one and count upwards from it.
-		step = -step
-		k := (start - end - 1) / step
-		start, end = start-k*step, start+1
+		//Count upwards from the smallest element.
+		first -= (count - 1) * size
 	}
 
-	tmp := make([]int, 0, (end-start+step-1)/step)
-	for i := start; i < end; i += step {
-		tmp = append(tmp, i)
+	tmp := make([]int, count)
+	for i := range tmp {
+		tmp[i] = int(first + uint64(i)*size)
 	}
 	return tmp
 }
